@@ -100,6 +100,9 @@ def generate(R, tier, focus):
                     if t <= start_ms:
                         t = start_ms + 3600000
             ops.append({'op': 'SCALE_TO_DATE', 't_ms': t, 'where': where, 'actor': actor})
+        elif x < 0.42:
+            # the same file loaded again later in the process: must be pristine and independent of the first object
+            ops.append({'op': 'RELOAD', 'v': R.choice((2, 0.5, 7.0)), 'actor': actor})
         elif x < 0.5:
             ops.append({'op': 'READ', 'actor': actor})
         elif x < 0.75:
@@ -311,6 +314,20 @@ def _execute(scn, ctx, store, clock, rng):
                 # docstring: "scale the forecast by unity"; code: leaves the factor. Both accepted.
                 factor['alts'] = [factor['v'], 1]
                 ctx.count('rare:scale_to_date_out_of_window')
+        elif kind == 'RELOAD':
+            r = call(load_forecast, path, scn)
+            if r[0] != 'ok':
+                ctx.violate('C11', 'load', 'reload-exception:%s' % r[1], {'op': oi, 'msg': r[2]})
+                return
+            second = r[1]
+            ctx.count('reload_checked')
+            if hexf(numpy.array(second.data)) != hexf(numpy.array(base * 1)):
+                ctx.violate('C11', 'load', 'reloaded-forecast-is-not-the-file', {'op': oi, 'first_object_factor': factor['alts'],
+                                                                                'got_sum': float(numpy.array(second.data).sum()),
+                                                                                'file_sum': float(base.sum())})
+                return
+            second.scale(op['v'])
+            # (whether the first object was affected is decided by check_data below)
         elif kind == 'READ':
             d = numpy.array(fc.data)
             tot = float(fc.sum())
